@@ -70,6 +70,9 @@ def run(facts, rep, tier, ctx):
     # sides build the marker path relative to the write layer
     from . import c09 as _c09
     _c09.relative_join_rules(facts, rep, ws, rule="R11.9")
+    # transfers into an overlay land below directories that may exist only in a lower layer, any number of levels deep: the
+    # overlay mirrors the whole parent chain into the write layer
+    _c09.materialisation_rules(facts, rep, ws, rule="R11.10")
     # the async path type carries its own copy of every composite
     wa = World(facts, True)
     rep.ob("R11.A", "async_vfs", "async world present", wa.present(), "", "")
@@ -80,6 +83,7 @@ def run(facts, rep, tier, ctx):
             pra.copy_dir_count(A, "R11.4") + pra.create_dir_all(A, "R11.5")
         _c05.walk_rules(facts, _c05._P5(A, "R11.6"), wa, D)
         _c09.relative_join_rules(facts, A, wa, rule="R11.9")
+        _c09.materialisation_rules(facts, A, wa, rule="R11.10")
         scratch = Report("xa")
         c20.run_world(facts, scratch, wa, {"results": 0, "err_edges": 0, "kind_arms": 0})
         for o in scratch.obligations:
